@@ -24,6 +24,24 @@ pub fn narrow_down_type(
     target: LuaType,
     declared: Option<LuaType>,
 ) -> Option<LuaType> {
+    narrow_down_type_with_depth(db, source, target, declared, 0)
+}
+
+/// Mutually recursive aliases (`---@alias A B|string`, `---@alias B A|number`) lead the walk over
+/// union members back to the same alias; past this depth the source is kept as it is.
+const MAX_NARROW_DOWN_DEPTH: u32 = 10;
+
+fn narrow_down_type_with_depth(
+    db: &DbIndex,
+    source: LuaType,
+    target: LuaType,
+    declared: Option<LuaType>,
+    depth: u32,
+) -> Option<LuaType> {
+    if depth >= MAX_NARROW_DOWN_DEPTH {
+        return Some(source);
+    }
+
     if source == target {
         return Some(source);
     }
@@ -192,7 +210,13 @@ pub fn narrow_down_type(
             _ => {}
         },
         LuaType::Instance(base) => {
-            return narrow_down_type(db, source, base.get_base().clone(), declared);
+            return narrow_down_type_with_depth(
+                db,
+                source,
+                base.get_base().clone(),
+                declared,
+                depth + 1,
+            );
         }
         LuaType::BooleanConst(value) => {
             if real_source_ref.is_boolean() {
@@ -206,7 +230,15 @@ pub fn narrow_down_type(
             let source_types = target_u
                 .into_vec()
                 .into_iter()
-                .filter_map(|t| narrow_down_type(db, real_source_ref.clone(), t, declared.clone()))
+                .filter_map(|t| {
+                    narrow_down_type_with_depth(
+                        db,
+                        real_source_ref.clone(),
+                        t,
+                        declared.clone(),
+                        depth + 1,
+                    )
+                })
                 .collect::<Vec<_>>();
             if source_types.is_empty() {
                 return None;
@@ -231,7 +263,9 @@ pub fn narrow_down_type(
             let union_types = union
                 .into_vec()
                 .into_iter()
-                .filter_map(|t| narrow_down_type(db, t, target.clone(), declared.clone()))
+                .filter_map(|t| {
+                    narrow_down_type_with_depth(db, t, target.clone(), declared.clone(), depth + 1)
+                })
                 .collect::<Vec<_>>();
 
             return (!union_types.is_empty()).then_some(LuaType::from_vec(union_types));
@@ -241,7 +275,13 @@ pub fn narrow_down_type(
                 .get_unions()
                 .iter()
                 .filter_map(|(ty, _)| {
-                    narrow_down_type(db, ty.clone(), target.clone(), declared.clone())
+                    narrow_down_type_with_depth(
+                        db,
+                        ty.clone(),
+                        target.clone(),
+                        declared.clone(),
+                        depth + 1,
+                    )
                 })
                 .collect::<Vec<_>>();
 
